@@ -669,6 +669,33 @@ def with_private_helpers(idx: Index, f: FuncInfo, depth: int = 2) -> List[FuncIn
     return out
 
 
+def _tailify_void(stmts):
+    """statement list of a value-less function whose bare `return`s are all in tail position of an if/else tree -> the same
+    code without returns (what follows an `if ...: return` moves into its else branch); None when a return sits in a loop,
+    try or with"""
+    import copy
+    out = []
+    for i, b in enumerate(stmts):
+        rest = stmts[i + 1:]
+        if isinstance(b, ast.Return):
+            return out or [ast.Pass()]
+        if not any(isinstance(x, ast.Return) for x in ast.walk(b)):
+            out.append(b)
+            continue
+        if not isinstance(b, ast.If):
+            return None
+        ends = lambda blk: bool(blk) and isinstance(blk[-1], (ast.Return, ast.Raise))
+        body = _tailify_void(b.body + ([] if ends(b.body) else copy.deepcopy(rest)))
+        orelse = _tailify_void((b.orelse or []) + ([] if (b.orelse and ends(b.orelse)) else copy.deepcopy(rest)))
+        if body is None or orelse is None:
+            return None
+        nb = copy.copy(b)
+        nb.body, nb.orelse = body, ([] if orelse == [ast.Pass()] or all(isinstance(x, ast.Pass) for x in orelse) else orelse)
+        out.append(nb)
+        return out
+    return out or [ast.Pass()]
+
+
 _INLINE_CACHE: Dict[tuple, ast.AST] = {}
 
 
@@ -700,8 +727,40 @@ def inline_private_calls(idx: Index, f: FuncInfo, depth: int = 2, keep=()) -> as
             return (h if h is not None and h.unit.modname == modname else None), False
         return None, False
 
+    counter = [0]
+
+    def hoist(st):
+        """`return F(self._h(a))` -> `_inl_k = self._h(a)` ; `return F(_inl_k)`: private-helper calls nested in the expression
+        of a simple statement are given a name, so that the statement-level cases below apply to them"""
+        if not isinstance(st, (ast.Assign, ast.Return, ast.Expr, ast.AugAssign, ast.AnnAssign)) or getattr(st, "value", None) is None:
+            return [st]
+        pre = []
+
+        class H(ast.NodeTransformer):
+            def visit_Lambda(self, n):
+                return n
+
+            def visit_Call(self, n):
+                self.generic_visit(n)
+                if n is st.value:
+                    return n
+                h, _ = helper_of(f.cls, f.unit.modname, n)
+                if h is not None and h.qualname != f.qualname and h.name.startswith("_") and not h.name.startswith("__") and h.name not in keep \
+                        and any(isinstance(x, ast.Return) and x.value is not None for x in walk_local(h.node)):
+                    counter[0] += 1
+                    nm = f"_inl_{counter[0]}"
+                    pre.append(ast.copy_location(ast.Assign(targets=[ast.Name(id=nm, ctx=ast.Store())], value=n), st))
+                    return ast.copy_location(ast.Name(id=nm, ctx=ast.Load()), n)
+                return n
+
+        if any(isinstance(x, (ast.ListComp, ast.SetComp, ast.DictComp, ast.GeneratorExp, ast.IfExp, ast.BoolOp)) for x in ast.walk(st.value)):
+            return [st]  # evaluated conditionally / repeatedly: leave in place
+        st.value = H().visit(st.value)
+        return pre + [st]
+
     def expand(stmts, level):
         out = []
+        stmts = [y for x in stmts for y in (hoist(x) if level < depth else [x])]
         for st in stmts:
             for fld in ("body", "orelse", "finalbody"):
                 v = getattr(st, fld, None)
@@ -717,6 +776,16 @@ def inline_private_calls(idx: Index, f: FuncInfo, depth: int = 2, keep=()) -> as
                     has_value_return = any((isinstance(x, ast.Return) and x.value is not None) or isinstance(x, (ast.Yield, ast.YieldFrom))
                                            for x in walk_local(h.node))
                     early_return = any(isinstance(x, ast.Return) for x in walk_local(h.node) if x is not h.node.body[-1])
+                    if simple and not has_value_return and early_return:
+                        # bare `return`s in tail position of an if/else tree: the code after an `if ...: return` moves into its else
+                        tb = _tailify_void([b for b in h.node.body if not (isinstance(b, ast.Expr) and isinstance(b.value, ast.Constant))])
+                        if tb is not None:
+                            early_return = False
+                            h_body_override = tb
+                        else:
+                            h_body_override = None
+                    else:
+                        h_body_override = None
                     if simple and not has_value_return and not early_return:
                         params = [p.arg for p in a.args][1 if is_method else 0:]
                         env = {}
@@ -741,7 +810,7 @@ def inline_private_calls(idx: Index, f: FuncInfo, depth: int = 2, keep=()) -> as
                                     if n.id in env and isinstance(n.ctx, ast.Load):
                                         return copy.deepcopy(env[n.id])
                                     return n
-                            body = [Sub().visit(copy.deepcopy(b)) for b in h.node.body
+                            body = [Sub().visit(copy.deepcopy(b)) for b in (h_body_override if h_body_override is not None else h.node.body)
                                     if not (isinstance(b, ast.Expr) and isinstance(b.value, ast.Constant)) and not isinstance(b, ast.Return)]
                             out.extend(expand(body, level + 1) or [ast.Pass()])
                             continue
@@ -790,8 +859,10 @@ def inline_private_calls(idx: Index, f: FuncInfo, depth: int = 2, keep=()) -> as
                                     continue
                                 if not isinstance(b, ast.If):
                                     return None
-                                body = tailify(b.body + ([] if _ends(b.body) else rest)) if True else None
-                                orelse = tailify((b.orelse or []) + ([] if (b.orelse and _ends(b.orelse)) else rest))
+                                # (the statements that follow are COPIED into each branch: a node shared by two lists would be
+                                # expanded twice, and helper calls introduced by the first expansion re-expanded without bound)
+                                body = tailify(b.body + ([] if _ends(b.body) else copy.deepcopy(rest)))
+                                orelse = tailify((b.orelse or []) + ([] if (b.orelse and _ends(b.orelse)) else copy.deepcopy(rest)))
                                 if body is None or orelse is None:
                                     return None
                                 nb = copy.copy(b)
@@ -864,3 +935,155 @@ def inline_private_calls(idx: Index, f: FuncInfo, depth: int = 2, keep=()) -> as
     node.body = expand(node.body, 0)
     ast.fix_missing_locations(node)
     return node
+
+
+def call_target_rule(ctx, res, rule: str) -> None:
+    """Shared by C01/C02: which function runs when `f(...)` is written -- needed to bind a keyword argument to the
+    parameter it names.  Calling a CLASS runs its `__init__`; calling an INSTANCE runs `__call__` (an instance has its
+    class's `__init__` among its attributes too, so "has an __init__" does not identify a class).  Wherever
+    `get_enclosing_function` (or a private helper it delegates to) answers with the `__init__` attribute of the called
+    object, the answer is guarded by the test that the object is a class."""
+    from ..cfg import CFG
+    idx = ctx.idx
+    f = idx.need_func("rope.base.evaluate.ScopeNameFinder.get_enclosing_function")
+    n = 0
+    for g in with_private_helpers(idx, f):
+        cfg = CFG(g.node)
+        ranges = {}
+        for lp in walk_local(g.node):
+            if isinstance(lp, ast.For) and isinstance(lp.target, ast.Name):
+                k = idx.const_node(g.unit.modname, lp.iter, g.cls)
+                elts = lp.iter.elts if isinstance(lp.iter, (ast.Tuple, ast.List)) else None
+                if elts is None:
+                    tv = idx.module_assigns.get(g.unit.modname, {}).get(lp.iter.id) if isinstance(lp.iter, ast.Name) else None
+                    elts = tv.elts if isinstance(tv, (ast.Tuple, ast.List)) else None
+                if elts is not None:
+                    ranges[lp.target.id] = {e.value for e in elts if isinstance(e, ast.Constant)}
+        for nd in cfg.nodes:
+            if nd.kind != "stmt" or not isinstance(nd.ast, ast.Return) or nd.ast.value is None:
+                continue
+            keys = set()
+            for sub in ast.walk(nd.ast.value):
+                if isinstance(sub, ast.Subscript):
+                    if isinstance(sub.slice, ast.Constant):
+                        keys.add(sub.slice.value)
+                    elif isinstance(sub.slice, ast.Name):
+                        keys |= ranges.get(sub.slice.id, set())
+            if "__init__" not in keys:
+                continue
+            n += 1
+            gs = cfg.guards(nd.id)
+            is_class = any(pol and isinstance(t, ast.Call) and call_name(t) == "isinstance" and len(t.args) == 2
+                           and any(x in ast.unparse(t.args[1]) for x in ("AbstractClass", "PyClass")) for t, pol in gs)
+            res.add(rule, f"{g.name}|__init__-only-for-classes#{n}", is_class, f"{g.unit.rel}:{nd.lineno}",
+                    "`__init__` is taken for the function that a call runs only when the called object is a class" if is_class else
+                    "the `__init__` attribute is taken for the function a call runs without testing that the called object is a CLASS: an instance has its "
+                    "class's `__init__` too, so in `inst(kw=1)` the keyword is bound to __init__'s parameter instead of __call__'s -- renaming __call__'s "
+                    "parameter leaves the keyword behind (TypeError at run time), renaming a like-named __init__ parameter rewrites it wrongly",
+                    function=g.qualname)
+    res.floor(rule, "places where __init__ is answered as the called function", n, 1)
+
+
+def raw_text_rule(ctx, res, rule: str) -> None:
+    """Shared by C06/C14: the word finder keeps two texts of equal length -- `raw`, the source, and `code`, the source with
+    the contents of strings and comments blanked, which exists for SEARCHING.  Text that is handed back to a caller (a
+    parameter list with its defaults, a primary, a word) is cut from `raw`; a slice of `code` may only be looked at
+    (compared, tested), never returned: `def f(sep=", ")` read from `code` has the default `"  "`."""
+    idx = ctx.idx
+    cls = idx.need_class("rope.base.worder._RealFinder")
+    n = 0
+
+    def text_of_code(fn, e, depth=0) -> Optional[ast.AST]:
+        """the `self.code[a:b]` slice that is the VALUE of e (possibly stripped), following locals and tuple elements"""
+        if depth > 3:
+            return None
+        if isinstance(e, ast.Subscript) and isinstance(e.slice, ast.Slice) and is_self_attr(e.value, "code"):
+            return e
+        if isinstance(e, ast.Call) and isinstance(e.func, ast.Attribute) and e.func.attr in ("strip", "lstrip", "rstrip", "lower", "upper") and not e.args:
+            return text_of_code(fn, e.func.value, depth + 1)
+        if isinstance(e, (ast.Tuple, ast.List)):
+            for el in e.elts:
+                r = text_of_code(fn, el, depth + 1)
+                if r is not None:
+                    return r
+        if isinstance(e, ast.Name):
+            for x in walk_local(fn):
+                if isinstance(x, ast.Assign) and any(isinstance(t, ast.Name) and t.id == e.id for t in x.targets):
+                    r = text_of_code(fn, x.value, depth + 1)
+                    if r is not None:
+                        return r
+        return None
+
+    for mname, m in sorted(cls.methods.items()):
+        k = 0
+        for r in sorted((x for x in walk_local(m.node) if isinstance(x, ast.Return)), key=lambda x: x.lineno):
+            if not (isinstance(r, ast.Return) and r.value is not None):
+                continue
+            if not any(isinstance(x, ast.Subscript) and isinstance(x.slice, ast.Slice) for x in ast.walk(r.value)) and not isinstance(r.value, (ast.Name, ast.Tuple)):
+                continue
+            bad = text_of_code(m.node, r.value)
+            raw = any(isinstance(x, ast.Subscript) and isinstance(x.slice, ast.Slice) and is_self_attr(x.value, "raw") for x in ast.walk(r.value))
+            if bad is None and not raw:
+                continue
+            n += 1
+            k += 1
+            res.add(rule, f"_RealFinder.{mname}|returned-text#{k}", bad is None, f"{m.unit.rel}:{r.lineno}",
+                    "the text handed back is cut from the raw source" if bad is None else
+                    f"{mname} hands back `{ast.unparse(bad)}`, a piece of the BLANKED text (string and comment contents replaced by spaces): a parameter "
+                    "list read this way has `sep=\"  \"` where the source says `sep=\", \"`, and every rewritten signature / inlined default carries the "
+                    "blanked literal -- calls that rely on the default are bound to a different value", function=m.qualname)
+    res.floor(rule, "methods of the word finder that hand back source text", n, 6)
+
+
+def exists_form(fn_node, pred) -> Optional[Tuple[str, bool]]:
+    """For a boolean function written as a quantifier over one loop / comprehension, the pair (quantifier, polarity) of its
+    truth condition in terms of `pred(x)`:  ("exists", True) = some x has pred, ("exists", False) = some x has NOT pred,
+    ("forall", True/False) likewise.  `pred` recognises the predicate call in an expression (returns True for `P(x)`).
+    Recognised shapes: `return any(...)` / `all(...)` / `not any(...)` / `not all(...)` over a generator of `P(x)` or
+    `not P(x)`; and the loop `for x in xs: if [not] P(x): return <const>` ... `return <other const>`.  None otherwise."""
+    def polarity(e) -> Optional[bool]:
+        neg = False
+        while isinstance(e, ast.UnaryOp) and isinstance(e.op, ast.Not):
+            neg = not neg
+            e = e.operand
+        return (not neg) if pred(e) else None
+
+    rets = [r for r in walk_local(fn_node) if isinstance(r, ast.Return)]
+    # comprehension form
+    if len(rets) == 1 and rets[0].value is not None:
+        e, neg = rets[0].value, False
+        while isinstance(e, ast.UnaryOp) and isinstance(e.op, ast.Not):
+            neg = not neg
+            e = e.operand
+        if isinstance(e, ast.Call) and call_name(e) in ("any", "all") and len(e.args) == 1 and isinstance(e.args[0], (ast.GeneratorExp, ast.ListComp)) \
+                and not e.args[0].generators[0].ifs:
+            pol = polarity(e.args[0].elt)
+            if pol is None:
+                return None
+            q = "exists" if call_name(e) == "any" else "forall"
+            if neg:  # not any(P) = forall not P ; not all(P) = exists not P
+                q, pol = ("forall" if q == "exists" else "exists"), not pol
+            return q, pol
+        return None
+    # loop form: exactly one loop, an `if [not] P(x): return C1` inside it, and a final `return C2`
+    loops = [l for l in walk_local(fn_node) if isinstance(l, ast.For)]
+    if len(loops) != 1 or len(rets) != 2:
+        return None
+    inner = [r for r in rets if any(r is x for x in ast.walk(loops[0]))]
+    outer = [r for r in rets if r not in inner]
+    if len(inner) != 1 or len(outer) != 1 or not all(isinstance(r.value, ast.Constant) and isinstance(r.value.value, bool) for r in rets):
+        return None
+    from ..cfg import CFG
+    cfg = CFG(fn_node)
+    nd = next((n for n in cfg.nodes if n.ast is inner[0]), None)
+    if nd is None:
+        return None
+    pols = [(polarity(t), p) for t, p in cfg.guards(nd.id) if polarity(t) is not None]
+    if len(pols) != 1:
+        return None
+    pol = pols[0][0] == pols[0][1]  # the early return is taken when P(x) has this truth value
+    if inner[0].value.value is True and outer[0].value.value is False:
+        return "exists", pol
+    if inner[0].value.value is False and outer[0].value.value is True:
+        return "forall", not pol
+    return None
